@@ -34,7 +34,13 @@ func checkCloneDeepCopiesAccounts(c *core.Ctx) {
 				continue
 			}
 			n++
-			al, isAl := st.Val.(*ssa.Alloc)
+			// the copy may be made by a same-module helper that returns the fresh object
+			elemVal := st.Val
+			if via, release := valueVia(st.Val); via != st.Val {
+				defer release()
+				elemVal = via
+			}
+			al, isAl := elemVal.(*ssa.Alloc)
 			fresh := isAl && al.Heap
 			copied := false
 			if fresh && al.Referrers() != nil {
